@@ -11,6 +11,14 @@ locks of two filesystems) it emits the sequence of *segments* of the body:
 each with the shared-state accesses it makes, in evaluation order.  Syntax the extractor does
 not understand makes the whole method `unknown` (never guessed).
 
+Local variables that hold shared state are tracked ("entry variables"): a name assigned from
+`self._get_dir_entry(...)`, `self.root`, `self._make_dir_entry(...)`, from `<entry>.get_entry(...)`,
+from `typing.cast(T, <entry expr>)` / a conditional of such, or from another entry variable.  Every
+attribute access or method call on an entry variable (`.get_entry`, `.set_entry`, `.remove_entry`,
+`.list`, `.to_info`, `.lock`, `.is_dir`, …) and every `x in <entry>` is recorded as `entryUse
+<name>` in the segment where it happens — in particular in the unlocked statements that follow a
+`with self._lock:` block inside a generator.
+
 Output: <out_dir>/LockTable.lean (data over FsModel/LockTypes.lean).
 """
 from __future__ import annotations
@@ -38,6 +46,8 @@ OS_MODULES = {"os", "shutil", "sendfile", "stat", "errno", "platform", "tempfile
 SELF_STATE_ATTRS = {"root", "mounts", "default_fs", "_filesystems", "_fs_sequence", "write_fs", "_write_fs_name",
                     "_closed", "_wrap_fs", "_sort_index", "_sub_dir", "auto_close", "_auto_close"}
 FILE_OPENERS = {"open", "openbin"}
+# self-calls whose result is a (reference to a) shared _DirEntry
+ENTRY_SOURCES = {"_get_dir_entry", "_make_dir_entry"}
 # self attributes holding another filesystem object (calls through them are delegate calls)
 DELEGATE_ATTRS = {"default_fs", "write_fs", "_wrap_fs"}
 # raw mapping operations (LRUCache is an OrderedDict: each of these is one atomic C-level step)
@@ -81,6 +91,7 @@ class MethodWalker:
         self.lock_depth = 0
         self.loop_depth = 0
         self.file_vars = set()
+        self.entry_vars = set()
         self.nested = {}
         self.inlining = []
         for n in ast.walk(fn):
@@ -108,6 +119,7 @@ class MethodWalker:
         probe.segs = [Seg(False)]
         probe.lock_depth = probe.loop_depth = 0
         probe.file_vars = set()
+        probe.entry_vars = set()
         probe.nested = {}
         probe.inlining = []
         try:
@@ -125,6 +137,45 @@ class MethodWalker:
         self.cur.acc.append((kind, name))
         if self.loop_depth:
             self.cur.loops = True
+
+    def is_entry_expr(self, node):
+        """does the expression evaluate to (a reference to) shared directory-entry state?"""
+        if node is None:
+            return False
+        if isinstance(node, ast.Name):
+            return node.id in self.entry_vars
+        if isinstance(node, ast.Attribute):
+            return isinstance(node.value, ast.Name) and node.value.id == "self" and node.attr == "root"
+        if isinstance(node, ast.IfExp):
+            return self.is_entry_expr(node.body) or self.is_entry_expr(node.orelse)
+        if isinstance(node, ast.BoolOp):
+            return any(self.is_entry_expr(v) for v in node.values)
+        if hasattr(ast, "NamedExpr") and isinstance(node, ast.NamedExpr):
+            return self.is_entry_expr(node.value)
+        if isinstance(node, ast.Call):
+            f = node.func
+            if isinstance(f, ast.Attribute):
+                if isinstance(f.value, ast.Name) and f.value.id == "self" and f.attr in ENTRY_SOURCES:
+                    return True
+                if f.attr == "get_entry" and self.is_entry_expr(f.value):
+                    return True
+                if f.attr == "cast" and len(node.args) == 2:  # typing.cast(T, x)
+                    return self.is_entry_expr(node.args[1])
+            if isinstance(f, ast.Name) and f.id == "cast" and len(node.args) == 2:
+                return self.is_entry_expr(node.args[1])
+        return False
+
+    def bind(self, target, value):
+        """assignment `target = value`: propagate the entry-variable property"""
+        if isinstance(target, ast.Name):
+            if self.is_entry_expr(value):
+                self.entry_vars.add(target.id)
+            else:
+                self.entry_vars.discard(target.id)
+        elif isinstance(target, (ast.Tuple, ast.List)) and isinstance(value, (ast.Tuple, ast.List)) \
+                and len(target.elts) == len(value.elts):
+            for t, v in zip(target.elts, value.elts):
+                self.bind(t, v)
 
     # ------------------------------------------------------------------ expressions
     def expr(self, node):
@@ -166,6 +217,20 @@ class MethodWalker:
                     self.add("attr", node.attr)
                 return
             self.expr(node.value)
+            if self.is_entry_expr(node.value):
+                self.add("entryUse", node.attr)
+            return
+        if isinstance(node, ast.Compare):
+            self.expr(node.left)
+            for op, comp in zip(node.ops, node.comparators):
+                self.expr(comp)
+                if isinstance(op, (ast.In, ast.NotIn)) and self.is_entry_expr(comp):
+                    self.add("entryUse", "in")
+            return
+        if isinstance(node, ast.Subscript) and self.is_entry_expr(node.value):
+            self.expr(node.value)
+            self.expr(node.slice)
+            self.add("entryUse", "getitem")
             return
         for child in ast.iter_child_nodes(node):
             if isinstance(child, ast.expr):
@@ -215,6 +280,15 @@ class MethodWalker:
         if not isinstance(f, ast.Attribute):
             return
         m = f.attr
+        if self.is_entry_expr(recv):
+            # a method of a shared _DirEntry: mutators keep their own tag, everything else is an entry use
+            if isinstance(recv, ast.Attribute) or isinstance(recv, ast.Call):
+                pass  # self.root / chained call: the receiver's own accesses were recorded by expr(recv)
+            if m in DIR_MUTATORS:
+                self.add("dirMut", m)
+            else:
+                self.add("entryUse", m)
+            return
         if m in DICT_OPS:
             self.add("attr", m)
             return
@@ -350,10 +424,13 @@ class MethodWalker:
             self.expr(s.value)
             for t in s.targets:
                 self.target(t)
+                self.bind(t, s.value)
             return
         if isinstance(s, ast.AnnAssign):
             self.expr(s.value)
             self.target(s.target)
+            if s.value is not None:
+                self.bind(s.target, s.value)
             return
         if isinstance(s, ast.AugAssign):
             self.expr(s.value)
@@ -386,6 +463,8 @@ class MethodWalker:
                     self.add("attr", t.attr)
             else:
                 self.expr(t.value)
+                if self.is_entry_expr(t.value):
+                    self.add("entryUse", t.attr)
         elif isinstance(t, (ast.Tuple, ast.List)):
             for e in t.elts:
                 self.target(e)
